@@ -13,7 +13,10 @@
 // (http.Client/Request/Response, websocket.Client/Conn); the request line
 // token and the header map, for which the API has no accessor, are read from
 // the API's own objects by reflection (read-only).  The raw WebSocket client
-// (wsraw scenarios) is the harness's own RFC 6455 codec over a tcpip.Endpoint;
+// (wsraw scenarios) and the raw WebSocket server the bundled client talks to
+// (wsrawsrv scenarios; masked and unmasked frames alternate on one connection)
+// are the harness's own RFC 6455 codec over a tcpip.Endpoint; combo scenarios
+// keep several connections of the one server process open at the same time;
 // the accept key is recomputed with crypto/sha1 + encoding/base64.
 package main
 
@@ -57,11 +60,11 @@ const (
 type msgSpec struct {
 	N    int   `json:"n"`
 	Seed int   `json:"seed"`
-	Key  []int `json:"key"` // raw client: masking key (4 bytes)
+	Key  []int `json:"key"` // raw sender: masking key (4 bytes); empty = the frame is sent unmasked
 }
 
 type scenario struct {
-	Kind string `json:"kind"` // http | ws | wsraw
+	Kind string `json:"kind"` // http | ws | wsraw | wsrawsrv | combo
 	ID   int    `json:"id"`
 	// http
 	Method  string     `json:"method"`
@@ -546,7 +549,7 @@ func runWS(rn *run, settle time.Duration) (stuck bool) {
 // ---------------------------------------------------------------- raw TCP endpoint of the stack
 type rawConn struct {
 	ep  tcpip.Endpoint
-	wq  waiter.Queue
+	wq  *waiter.Queue
 	we  waiter.Entry // readable / hang-up
 	ch  chan struct{}
 	oe  waiter.Entry // writable
@@ -555,8 +558,8 @@ type rawConn struct {
 }
 
 func dialRaw(s *stack.Stack, d time.Duration) (*rawConn, error) {
-	c := &rawConn{}
-	ep, e := s.NewEndpoint(tcp.ProtocolNumber, ipv4.ProtocolNumber, &c.wq)
+	c := &rawConn{wq: &waiter.Queue{}}
+	ep, e := s.NewEndpoint(tcp.ProtocolNumber, ipv4.ProtocolNumber, c.wq)
 	if e != nil {
 		return nil, errors.New(e.String())
 	}
@@ -642,20 +645,30 @@ func (c *rawConn) close() {
 	c.ep.Close()
 }
 
-// the harness's own RFC 6455 encoder (masked, minimal length form)
+// the harness's own RFC 6455 encoder (minimal length form; masked with key, or unmasked when key is empty)
 func encodeFrame(payload []byte, key []byte) (hdr, frame []byte) {
 	n := len(payload)
+	mb := byte(0)
+	if len(key) == 4 {
+		mb = 0x80
+	}
 	hdr = []byte{0x81}
 	switch {
 	case n <= 125:
-		hdr = append(hdr, 0x80|byte(n))
+		hdr = append(hdr, mb|byte(n))
 	case n <= 65535:
-		hdr = append(hdr, 0x80|126, byte(n>>8), byte(n))
+		hdr = append(hdr, mb|126, byte(n>>8), byte(n))
 	default:
-		hdr = append(hdr, 0x80|127, 0, 0, 0, 0, byte(n>>24), byte(n>>16), byte(n>>8), byte(n))
+		hdr = append(hdr, mb|127, 0, 0, 0, 0, byte(n>>24), byte(n>>16), byte(n>>8), byte(n))
 	}
-	hdr = append(hdr, key...)
+	if mb != 0 {
+		hdr = append(hdr, key...)
+	}
 	frame = append([]byte(nil), hdr...)
+	if mb == 0 {
+		frame = append(frame, payload...)
+		return
+	}
 	for i, b := range payload {
 		frame = append(frame, b^key[i%4])
 	}
@@ -670,6 +683,105 @@ func ints(b []byte) []int {
 	return out
 }
 
+// rawSend writes msgs as frames of direction dir with the harness's own encoder (a message with a 4-byte key is
+// masked, one without is sent unmasked: both kinds may alternate on one connection).
+func rawSend(rn *run, c *rawConn, dir string, side byte, msgs []msgSpec, got *int32, until time.Time) {
+	sc := rn.sc
+	for i, m := range msgs {
+		if !waitCount(got, needBefore(sc.Order, side, i), until) {
+			rn.log("note", "what", fmt.Sprintf("raw %s sender: gave up waiting before %c%d", dir, side, i))
+			return
+		}
+		data := gen(m.N, m.Seed)
+		key := []byte{}
+		if len(m.Key) == 4 {
+			key = []byte{byte(m.Key[0]), byte(m.Key[1]), byte(m.Key[2]), byte(m.Key[3])}
+		}
+		hdr, frame := encodeFrame(data, key)
+		rn.log("send", "dir", dir, "m", desc(data))
+		rn.log("frame", "dir", dir, "hdr", ints(hdr), "key", ints(key))
+		// optionally dribble the frame so that the receiver's exact-length read needs several receives
+		pos, k := 0, 0
+		for pos < len(frame) {
+			sz := len(frame) - pos
+			if len(sc.Chunks) > 0 {
+				if cs := sc.Chunks[k%len(sc.Chunks)]; cs > 0 && cs < sz {
+					sz = cs
+				}
+				k++
+			}
+			if err := c.write(frame[pos:pos+sz], until); err != nil {
+				rn.log("note", "what", "raw write: "+err.Error())
+				return
+			}
+			pos += sz
+			if len(sc.Chunks) > 0 && pos < len(frame) {
+				time.Sleep(300 * time.Microsecond)
+			}
+		}
+	}
+}
+
+// rawRecv reads len(msgs) frames of direction dir byte by byte with the harness's own decoder
+func rawRecv(rn *run, c *rawConn, dir string, msgs []msgSpec, got *int32, until time.Time) {
+	for j, m := range msgs {
+		h, err := c.readN(2, until)
+		if err != nil {
+			rn.log("note", "what", "raw read: "+err.Error())
+			return
+		}
+		ext := 0
+		if h[1]&0x7f == 126 {
+			ext = 2
+		} else if h[1]&0x7f == 127 {
+			ext = 8
+		}
+		if h[1]&0x80 != 0 {
+			ext += 4
+		}
+		more, err := c.readN(ext, until)
+		if err != nil {
+			rn.log("note", "what", "raw read: "+err.Error())
+			return
+		}
+		h = append(h, more...)
+		rn.log("frame", "dir", dir, "hdr", ints(h))
+		var n uint64
+		p := 2
+		switch h[1] & 0x7f {
+		case 126:
+			n = uint64(h[2])<<8 | uint64(h[3])
+			p = 4
+		case 127:
+			for _, b := range h[2:10] {
+				n = n<<8 | uint64(b)
+			}
+			p = 10
+		default:
+			n = uint64(h[1] & 0x7f)
+		}
+		if n != uint64(m.N) {
+			// the header does not announce the length of the message the peer was asked to send:
+			// already rejected by the trace spec at the frame event; do not wait for bytes that may never come
+			rn.log("note", "what", fmt.Sprintf("raw %s reader: frame %d announces %d bytes, message has %d", dir, j, n, m.N))
+			return
+		}
+		pay, err := c.readN(int(n), until)
+		if err != nil {
+			rn.log("note", "what", "raw read payload: "+err.Error())
+			return
+		}
+		if h[1]&0x80 != 0 {
+			for i := range pay {
+				pay[i] ^= h[p+i%4]
+			}
+		}
+		rn.log("recv", "dir", dir, "raw", true, "m", desc(pay))
+		atomic.AddInt32(got, 1)
+	}
+}
+
+// raw client <-> bundled server
 func runWSRaw(rn *run, s *stack.Stack, settle time.Duration) (stuck bool) {
 	defer rn.markStarted()
 	sc := rn.sc
@@ -722,102 +834,175 @@ func runWSRaw(rn *run, s *stack.Stack, settle time.Duration) (stuck bool) {
 	wdone := make(chan struct{})
 	go func() {
 		defer close(wdone)
-		for i, m := range sc.C2S {
-			if !waitCount(&rn.cliGot, needBefore(sc.Order, 'c', i), until) {
-				rn.log("note", "what", fmt.Sprintf("raw client: gave up waiting before c%d", i))
-				return
-			}
-			data := gen(m.N, m.Seed)
-			key := []byte{0, 0, 0, 0}
-			for k := 0; k < 4 && k < len(m.Key); k++ {
-				key[k] = byte(m.Key[k])
-			}
-			hdr, frame := encodeFrame(data, key)
-			rn.log("send", "dir", "c2s", "m", desc(data))
-			rn.log("frame", "dir", "c2s", "hdr", ints(hdr), "key", ints(key))
-			// optionally dribble the frame so that the server's exact-length read needs several receives
-			pos, k := 0, 0
-			for pos < len(frame) {
-				sz := len(frame) - pos
-				if len(sc.Chunks) > 0 {
-					if cs := sc.Chunks[k%len(sc.Chunks)]; cs > 0 && cs < sz {
-						sz = cs
-					}
-					k++
-				}
-				if err := c.write(frame[pos:pos+sz], until); err != nil {
-					rn.log("note", "what", "raw write: "+err.Error())
-					return
-				}
-				pos += sz
-				if len(sc.Chunks) > 0 && pos < len(frame) {
-					time.Sleep(300 * time.Microsecond)
-				}
-			}
-		}
+		rawSend(rn, c, "c2s", 'c', sc.C2S, &rn.cliGot, until)
 	}()
 	rdone := make(chan struct{})
 	go func() {
 		defer close(rdone)
-		for j, m := range sc.S2C {
-			h, err := c.readN(2, until)
-			if err != nil {
-				rn.log("note", "what", "raw read: "+err.Error())
-				return
-			}
-			ext := 0
-			if h[1]&0x7f == 126 {
-				ext = 2
-			} else if h[1]&0x7f == 127 {
-				ext = 8
-			}
-			if h[1]&0x80 != 0 {
-				ext += 4
-			}
-			more, err := c.readN(ext, until)
-			if err != nil {
-				rn.log("note", "what", "raw read: "+err.Error())
-				return
-			}
-			h = append(h, more...)
-			rn.log("frame", "dir", "s2c", "hdr", ints(h))
-			var n uint64
-			p := 2
-			switch h[1] & 0x7f {
-			case 126:
-				n = uint64(h[2])<<8 | uint64(h[3])
-				p = 4
-			case 127:
-				for _, b := range h[2:10] {
-					n = n<<8 | uint64(b)
-				}
-				p = 10
-			default:
-				n = uint64(h[1] & 0x7f)
-			}
-			if n != uint64(m.N) {
-				// the header does not announce the length of the message the server was asked to send:
-				// already rejected by the trace spec at the frame event; do not wait for bytes that may never come
-				rn.log("note", "what", fmt.Sprintf("raw client: frame %d announces %d bytes, message has %d", j, n, m.N))
-				return
-			}
-			pay, err := c.readN(int(n), until)
-			if err != nil {
-				rn.log("note", "what", "raw read payload: "+err.Error())
-				return
-			}
-			if h[1]&0x80 != 0 {
-				for i := range pay {
-					pay[i] ^= h[p+i%4]
-				}
-			}
-			rn.log("recv", "dir", "s2c", "raw", true, "m", desc(pay))
-			atomic.AddInt32(&rn.cliGot, 1)
-		}
+		rawRecv(rn, c, "s2c", sc.S2C, &rn.cliGot, until)
 	}()
 	ok := waitCh(wdone, rn.deadline) && waitCh(rdone, rn.deadline) && waitCount(&rn.srvGot, len(sc.C2S), until)
 	rn.log("done", "timeout", !ok)
 	close(rn.finish)
+	return !ok
+}
+
+// ---------------------------------------------------------------- bundled client <-> the harness's own raw server
+// The receiver under test is the bundled CLIENT's Conn.ReadData: the raw server (a listening tcpip.Endpoint of the
+// same stack, port rawPort) answers the upgrade itself and sends masked and unmasked frames on one connection.
+const rawPort = 8081
+
+type rawListener struct {
+	ep tcpip.Endpoint
+	wq waiter.Queue
+	we waiter.Entry
+	ch chan struct{}
+}
+
+var rawSrv *rawListener
+
+func listenRaw(s *stack.Stack) *rawListener {
+	l := &rawListener{}
+	ep, e := s.NewEndpoint(tcp.ProtocolNumber, ipv4.ProtocolNumber, &l.wq)
+	if e != nil {
+		vh.Fatal("raw listener: %v", e)
+	}
+	l.ep = ep
+	l.we, l.ch = waiter.NewChannelEntry(nil)
+	l.wq.EventRegister(&l.we, waiter.EventIn)
+	if e := ep.Bind(tcpip.FullAddress{Port: rawPort}, nil); e != nil {
+		vh.Fatal("raw listener bind: %v", e)
+	}
+	if e := ep.Listen(16); e != nil {
+		vh.Fatal("raw listener listen: %v", e)
+	}
+	return l
+}
+
+func (l *rawListener) accept(until time.Time) (*rawConn, error) {
+	for {
+		ep, wq, e := l.ep.Accept()
+		if e == nil {
+			c := &rawConn{ep: ep, wq: wq}
+			c.we, c.ch = waiter.NewChannelEntry(nil)
+			wq.EventRegister(&c.we, waiter.EventIn|waiter.EventHUp)
+			c.oe, c.och = waiter.NewChannelEntry(nil)
+			wq.EventRegister(&c.oe, waiter.EventOut)
+			return c, nil // data that arrived before the registration is found by the first Read of fill()
+		}
+		if e != tcpip.ErrWouldBlock {
+			return nil, errors.New(e.String())
+		}
+		if !waitCh(l.ch, time.Until(until)) {
+			return nil, errDeadline
+		}
+	}
+}
+
+func runWSRawSrv(rn *run, settle time.Duration) (stuck bool) {
+	defer rn.markStarted()
+	sc := rn.sc
+	until := time.Now().Add(rn.deadline)
+	fail := func(what string) bool {
+		rn.log("note", "what", what)
+		rn.log("done", "timeout", true)
+		return true
+	}
+	url := fmt.Sprintf("http://%s:%d%s", srvIP, rawPort, sc.Path)
+	var cli wsClient
+	var err error
+	if !within(rn, rn.deadline, func() { cli, err = newBundledWS(url) }) || err != nil || cli == nil {
+		return fail(fmt.Sprintf("client connect to the raw server failed: %v", err))
+	}
+	defer func() {
+		defer func() { recover() }()
+		cli.Close()
+	}()
+	c, err := rawSrv.accept(until)
+	if err != nil {
+		return fail("raw server accept: " + err.Error())
+	}
+	defer c.close()
+	updone := make(chan struct{})
+	var uerr error
+	go func() {
+		defer close(updone)
+		defer contain(rn, "client upgrade")
+		uerr = cli.Upgrade()
+	}()
+	reqb, err := c.readUntil([]byte("\r\n\r\n"), until)
+	if err != nil {
+		return fail("raw server: reading the upgrade request: " + err.Error())
+	}
+	skey := ""
+	for _, ln := range strings.Split(string(reqb), "\r\n")[1:] {
+		if i := strings.Index(ln, ": "); i > 0 && ln[:i] == "Sec-WebSocket-Key" {
+			skey = ln[i+2:]
+		}
+	}
+	resp := "HTTP/1.1 101 Switching Protocols\r\nUpgrade: websocket\r\nConnection: Upgrade\r\nSec-WebSocket-Accept: " +
+		acceptRef(skey) + "\r\n\r\n"
+	if err := c.write([]byte(resp), until); err != nil {
+		return fail("raw server: writing the 101 response: " + err.Error())
+	}
+	// the bundled client takes the response with one receive: no frame before its Upgrade returned
+	if !waitCh(updone, rn.deadline) || uerr != nil {
+		return fail(fmt.Sprintf("client upgrade against the raw server: %v", uerr))
+	}
+	hc := cli.HTTP()
+	ckey := clientReq(hc).GetHeader("Sec-WebSocket-Key")
+	rn.log("upg", "client", "bundled-vs-raw-server", "ckey", ckey, "skey", skey, "accept", hc.GetRequest().GetHeader("Sec-WebSocket-Accept"),
+		"ref", acceptRef(ckey), "status", reqToken(hc.GetRequest(), "uri"))
+	rn.markStarted()
+	if !rn.waitGate() {
+		return fail("gate")
+	}
+	until = time.Now().Add(rn.deadline)
+	done := make([]chan struct{}, 4)
+	for i := range done {
+		done[i] = make(chan struct{})
+	}
+	go func() { // raw server -> client frames (masked and unmasked)
+		defer close(done[0])
+		rawSend(rn, c, "s2c", 's', sc.S2C, &rn.srvGot, until)
+	}()
+	go func() { // raw server reads the client's frames
+		defer close(done[1])
+		rawRecv(rn, c, "c2s", sc.C2S, &rn.srvGot, until)
+	}()
+	go func() { // bundled client sends
+		defer close(done[2])
+		defer contain(rn, "client writer")
+		for i, m := range sc.C2S {
+			if !waitCount(&rn.cliGot, needBefore(sc.Order, 'c', i), until) {
+				rn.log("note", "what", fmt.Sprintf("client: gave up waiting before c%d", i))
+				return
+			}
+			data := gen(m.N, m.Seed)
+			rn.log("send", "dir", "c2s", "m", desc(data))
+			if err := cli.Push(string(data)); err != nil {
+				rn.log("note", "what", "client Push: "+err.Error())
+			}
+		}
+	}()
+	go func() { // bundled client receives: Conn.ReadData under test
+		defer close(done[3])
+		defer contain(rn, "client reader")
+		for range sc.S2C {
+			s, err := cli.Recv()
+			if err != nil {
+				rn.log("note", "what", "client Recv: "+err.Error())
+				return
+			}
+			rn.log("recv", "dir", "s2c", "m", desc([]byte(s)))
+			atomic.AddInt32(&rn.cliGot, 1)
+		}
+	}()
+	ok := true
+	for _, d := range done {
+		ok = waitCh(d, rn.deadline) && ok
+	}
+	rn.log("done", "timeout", !ok)
 	return !ok
 }
 
@@ -852,6 +1037,7 @@ func main() {
 		srv.HandleFunc(r, wsHandler(r))
 	}
 	go srv.ListenAndServ()
+	rawSrv = listenRaw(s)
 	time.Sleep(30 * time.Millisecond)
 
 	th := vh.NewTrace(os.Args[3])
@@ -872,6 +1058,8 @@ func main() {
 			st := runWSRaw(rn, s, settle)
 			waitCh(rn.srvDone, 200*time.Millisecond)
 			return st
+		case "wsrawsrv":
+			return runWSRawSrv(rn, settle)
 		}
 		vh.Fatal("unknown scenario kind %q", rn.sc.Kind)
 		return true
@@ -928,7 +1116,9 @@ func main() {
 			if p.Kind != "http" {
 				rn.gate = gate
 			}
-			byRoute.Store(p.Path, rn)
+			if p.Kind != "wsrawsrv" { // (its server is the harness's own: no handler of the bundled server involved)
+				byRoute.Store(p.Path, rn)
+			}
 			wg.Add(1)
 			go func(k int, rn *run) {
 				defer wg.Done()
@@ -943,7 +1133,9 @@ func main() {
 		wg.Wait()
 		anyStuck := false
 		for k, rn := range runs {
-			byRoute.Delete(rn.sc.Path)
+			if rn.sc.Kind != "wsrawsrv" {
+				byRoute.Delete(rn.sc.Path)
+			}
 			if res[k] {
 				anyStuck = true
 				stuckIDs = append(stuckIDs, rn.sc.ID)
